@@ -10,6 +10,10 @@ package mapping_test
 //   - calls the real functions inside recover(),
 //   - and only checks membership of what came back in the allowed set, plus the equalities
 //     JSON = YAML, exact key = snake_case key = other-initial-case key.
+// Container-shape family ("shapes"): the member type is built from a word over S / M / P around an
+// element kind, the document is a tree rendered as structure or as its JSON text (string member,
+// form / path / header value); disagreements carry the source and the class of the shape in their
+// key (C05:panic:<source>:<shape-class>, C05:rejected-valid:..., C05:accepted:<why>:..., C05:wrong-value:...).
 // Nothing about expected values is computed here except the reference conversion of a decimal
 // text into the Go value it denotes (math/big for integers, strconv.ParseFloat for the
 // correctly rounded float).
@@ -48,7 +52,7 @@ import (
 type c05Name struct{ Exact, Snake, Initial string }
 
 type c05Val struct {
-	V     string
+	V     string // none | zero | any | int | float | str | bool | dur | sub | list | dict (members keyed by position)
 	Text  string
 	Ms    int
 	Items []c05Val
@@ -62,11 +66,25 @@ type c05Out struct {
 
 type c05Item struct{ Key, Text, Class string }
 
+// c05Node is a document tree of the container-shape family: a leaf (literal), an array, an object
+// (the keys of an object are c05TreeKeys by position).
+type c05Node struct {
+	N     string // leaf | arr | obj
+	Text  string
+	Class string
+	Items []*c05Node
+}
+
+var c05TreeKeys = []string{"kx", "ky", "kz"}
+
 type c05Doc struct {
-	D     string // absent | lit | arr | obj | sub
+	D     string // absent | lit | arr | obj | sub | tree
 	Text  string
 	Class string
 	Items []c05Item
+	// tree documents: Form = tree (structure) | text (the JSON text of the tree inside one string)
+	Form string
+	Node *c05Node
 }
 
 type c05Opts struct {
@@ -84,8 +102,9 @@ type c05Opts struct {
 
 type c05Field struct {
 	Name    c05Name
-	Shape   string // prim | slice | map | struct | embedded
+	Shape   string // prim | slice | map | struct | embedded | deep | tree
 	Kind    string
+	Ty      []string // shape "tree": the type word over S (slice of) / M (map[string] of) / P (pointer to) around Kind
 	Ptr     bool
 	Opts    c05Opts
 	Inherit bool
@@ -136,6 +155,17 @@ func decVal(m kit.M) c05Val {
 	return v
 }
 
+func decNode(m kit.M) *c05Node {
+	n := &c05Node{N: kit.Str(m["n"]), Text: c05Text(kit.Str(m["text"])), Class: kit.Str(m["class"])}
+	for _, it := range kit.List(m["items"]) {
+		n.Items = append(n.Items, decNode(it.(kit.M)))
+	}
+	if len(n.Items) > len(c05TreeKeys) {
+		panic("object node with more members than c05TreeKeys")
+	}
+	return n
+}
+
 func decOut(m kit.M) c05Out {
 	o := c05Out{Err: kit.Bool(m["err"]), Ok: kit.Bool(m["ok"]), Any: kit.Bool(m["any"]), Why: kit.Str(m["why"])}
 	if x, ok := m["val"].(kit.M); ok {
@@ -171,6 +201,13 @@ func decField(m kit.M) c05Field {
 	for _, x := range kit.List(d["items"]) {
 		xm := x.(kit.M)
 		f.Doc.Items = append(f.Doc.Items, c05Item{kit.Str(xm["key"]), c05Text(kit.Str(xm["text"])), kit.Str(xm["class"])})
+	}
+	f.Doc.Form = kit.Str(d["form"])
+	if nm, ok := d["node"].(kit.M); ok {
+		f.Doc.Node = decNode(nm)
+	}
+	for _, x := range kit.List(m["ty"]) {
+		f.Ty = append(f.Ty, kit.Str(x))
 	}
 	for _, x := range kit.List(m["defitems"]) {
 		f.DefItems = append(f.DefItems, c05Text(kit.Str(x)))
@@ -263,6 +300,20 @@ func c05FieldType(tagKey string, f c05Field) (reflect.Type, error) {
 			return nil, err
 		}
 		t = st
+	case "tree": // the word f.Ty around the element kind
+		t = c05Kinds[f.Kind]
+		for i := len(f.Ty) - 1; i >= 0 && t != nil; i-- {
+			switch f.Ty[i] {
+			case "S":
+				t = reflect.SliceOf(t)
+			case "M":
+				t = reflect.MapOf(reflect.TypeOf(""), t)
+			case "P":
+				t = reflect.PtrTo(t)
+			default:
+				t = nil
+			}
+		}
 	case "deep": // f.Kind names the container shape around T = struct(f.Sub)
 		st, err := c05StructType(tagKey, f.Sub, false)
 		if err != nil {
@@ -367,6 +418,52 @@ func anyScalar(text, class string) any {
 	}
 	return jsonNumber(text)
 }
+
+// nodeJSON writes a document tree as JSON text (sep = ", " / ": " gives the spelling that is also
+// YAML flow syntax).
+func nodeJSON(n *c05Node, spaced bool) string {
+	comma, colon := ",", ":"
+	if spaced {
+		comma, colon = ", ", ": "
+	}
+	switch n.N {
+	case "arr":
+		var it []string
+		for _, x := range n.Items {
+			it = append(it, nodeJSON(x, spaced))
+		}
+		return "[" + strings.Join(it, comma) + "]"
+	case "obj":
+		var it []string
+		for i, x := range n.Items {
+			it = append(it, strconv.Quote(c05TreeKeys[i])+colon+nodeJSON(x, spaced))
+		}
+		return "{" + strings.Join(it, comma) + "}"
+	}
+	return jsonScalar(n.Text, n.Class)
+}
+
+// nodeAny is what encoding/json with UseNumber yields for the tree.
+func nodeAny(n *c05Node) any {
+	switch n.N {
+	case "arr":
+		it := make([]any, 0, len(n.Items))
+		for _, x := range n.Items {
+			it = append(it, nodeAny(x))
+		}
+		return it
+	case "obj":
+		it := map[string]any{}
+		for i, x := range n.Items {
+			it[c05TreeKeys[i]] = nodeAny(x)
+		}
+		return it
+	}
+	return anyScalar(n.Text, n.Class)
+}
+
+// treeText: the tree as the characters a text source carries / a string member holds.
+func treeText(f c05Field) string { return nodeJSON(f.Doc.Node, false) }
 
 // deepWrap puts the one T object of a "deep" field into its containers (JSON flow syntax, which is
 // also valid YAML flow syntax when written with ": " and ", ").
@@ -489,6 +586,12 @@ func renderJSON(fs []c05Field, sp string) string {
 			parts = append(parts, key+":{"+strings.Join(it, ",")+"}")
 		case "sub":
 			parts = append(parts, key+":"+renderJSON(f.Sub, sp))
+		case "tree":
+			if f.Doc.Form == "text" {
+				parts = append(parts, key+":"+strconv.Quote(treeText(f)))
+			} else {
+				parts = append(parts, key+":"+nodeJSON(f.Doc.Node, false))
+			}
 		}
 	}
 	return "{" + strings.Join(parts, ",") + "}"
@@ -528,6 +631,12 @@ func renderYAML(fs []c05Field, indent string) string {
 			b.WriteString(key + "\n")
 			for _, x := range f.Doc.Items {
 				b.WriteString(indent + "  " + x.Key + ": " + jsonScalar(x.Text, x.Class) + "\n")
+			}
+		case "tree":
+			if f.Doc.Form == "text" {
+				b.WriteString(key + " " + strconv.Quote(treeText(f)) + "\n")
+			} else {
+				b.WriteString(key + " " + nodeJSON(f.Doc.Node, true) + "\n")
 			}
 		case "sub":
 			inner := renderYAML(f.Sub, indent+"  ")
@@ -571,6 +680,12 @@ func renderMap(fs []c05Field) map[string]any {
 			m[f.Name.Exact] = it
 		case "sub":
 			m[f.Name.Exact] = renderMap(f.Sub)
+		case "tree":
+			if f.Doc.Form == "text" {
+				m[f.Name.Exact] = treeText(f)
+			} else {
+				m[f.Name.Exact] = nodeAny(f.Doc.Node)
+			}
 		}
 	}
 	return m
@@ -588,6 +703,9 @@ func renderText(fs []c05Field) map[string]string {
 		}
 		if f.Doc.D == "lit" {
 			m[f.Name.Exact] = f.Doc.Text
+		}
+		if f.Doc.D == "tree" {
+			m[f.Name.Exact] = treeText(f)
 		}
 	}
 	return m
@@ -690,9 +808,18 @@ func matchVal(v reflect.Value, want c05Val, f c05Field) (bool, string) {
 	case "any":
 		return true, ""
 	case "zero":
+		if f.Shape == "tree" && !f.Opts.Optional {
+			// a required container that is absent: "absent = empty" is tolerated, also behind pointers
+			for v.Kind() == reflect.Ptr && !v.IsNil() {
+				v = v.Elem()
+			}
+		}
 		return isZeroish(v), "zero value"
 	case "none":
 		return false, "no value"
+	}
+	if f.Shape == "tree" {
+		return matchTree(v, want, f)
 	}
 	if v.Kind() == reflect.Ptr {
 		if v.IsNil() {
@@ -787,6 +914,109 @@ func matchVal(v reflect.Value, want c05Val, f c05Field) (bool, string) {
 	return false, "unknown value form " + want.V
 }
 
+// matchTree compares a value of a container-shape member with the value tree the specification
+// names: list = slice with exactly these elements, dict = map with exactly these members (keys by
+// position), pointers hold the address of what the tree names (an empty container may also be a nil
+// pointer / nil container: the document names no element), leaves as for a plain field.
+func matchTree(v reflect.Value, want c05Val, f c05Field) (bool, string) {
+	if want.V == "any" {
+		return true, ""
+	}
+	for v.Kind() == reflect.Ptr {
+		if v.IsNil() {
+			if (want.V == "list" || want.V == "dict") && len(want.Items) == 0 {
+				return true, ""
+			}
+			return false, "a non-nil pointer to " + treeWant(want)
+		}
+		v = v.Elem()
+	}
+	switch want.V {
+	case "list":
+		if v.Kind() != reflect.Slice || v.Len() != len(want.Items) {
+			return false, treeWant(want)
+		}
+		for i, it := range want.Items {
+			if ok, _ := matchTree(v.Index(i), it, f); !ok {
+				return false, treeWant(want)
+			}
+		}
+		return true, ""
+	case "dict":
+		if v.Kind() != reflect.Map || v.Len() != len(want.Items) {
+			return false, treeWant(want)
+		}
+		for i, it := range want.Items {
+			e := v.MapIndex(reflect.ValueOf(c05TreeKeys[i]))
+			if !e.IsValid() {
+				return false, treeWant(want)
+			}
+			if ok, _ := matchTree(e, it, f); !ok {
+				return false, treeWant(want)
+			}
+		}
+		return true, ""
+	}
+	ef := f
+	ef.Shape, ef.Ptr = "prim", false
+	return matchVal(v, want, ef)
+}
+
+// treeWant prints a value tree of the specification.
+func treeWant(w c05Val) string {
+	switch w.V {
+	case "list":
+		var p []string
+		for _, it := range w.Items {
+			p = append(p, treeWant(it))
+		}
+		return "[" + strings.Join(p, " ") + "]"
+	case "dict":
+		var p []string
+		for i, it := range w.Items {
+			p = append(p, c05TreeKeys[i]+":"+treeWant(it))
+		}
+		return "map[" + strings.Join(p, " ") + "]"
+	case "any":
+		return "<any>"
+	case "dur":
+		return (time.Duration(w.Ms) * time.Millisecond).String()
+	case "str":
+		return strconv.Quote(w.Text)
+	}
+	return w.Text
+}
+
+// shapeClass names the class of a type word: <<M,P,S>> = map-of-ptr-to-slice (the element kind is
+// not part of the class).
+func shapeClass(ty []string) string {
+	var b strings.Builder
+	for i, c := range ty {
+		w := map[string]string{"S": "slice", "M": "map", "P": "ptr"}[c]
+		if i > 0 {
+			if ty[i-1] == "P" {
+				b.WriteString("-to-")
+			} else {
+				b.WriteString("-of-")
+			}
+		}
+		b.WriteString(w)
+	}
+	return b.String()
+}
+
+// shapeSource names how the tree reaches the member: typed (structure in a typed document),
+// typed-string (its JSON text as a string member of a typed document), form / path / header.
+func shapeSource(c *c05Case, tk string) string {
+	if c.Src == "text" {
+		return tk
+	}
+	if c.Fields[0].Doc.Form == "text" {
+		return "typed-string"
+	}
+	return "typed"
+}
+
 // matchFields compares every field of a struct value with its allowed values; "" = all match.
 func matchFields(sv reflect.Value, fs []c05Field) string {
 	for i, f := range fs {
@@ -831,6 +1061,12 @@ func kindName(f c05Field) string {
 		return "map[string]" + f.Kind
 	case "struct":
 		return "struct"
+	case "tree":
+		s := ""
+		for _, c := range f.Ty {
+			s += map[string]string{"S": "[]", "M": "map[string]", "P": "*"}[c]
+		}
+		return s + f.Kind
 	case "deep":
 		return map[string]string{"ss": "[][]T", "sm": "[]map[string]T", "ms": "map[string][]T", "ssm": "[][]map[string]T", "sp0": "[]*T", "sx": "[]T"}[f.Kind]
 	}
@@ -905,6 +1141,13 @@ func panicClass(msg string) string {
 func judge(c *c05Case, api, tk string, r c05Result, input string) *c05Bad {
 	via := c.Src // the key names the class of failure and the source class, not the shape or the API
 	where := fmt.Sprintf("%s [%s] (%s) into %s", api, c.Family, input, describeAs(tk, c.Fields))
+	if c.Family == "shapes" {
+		// container shapes: the key names the source and the class of the shape (what a repair is about)
+		via = shapeSource(c, tk) + ":" + shapeClass(c.Fields[0].Ty)
+		if r.class() == "panic" {
+			return &c05Bad{"C05:panic:" + via, fmt.Sprintf("%s panicked: %s", where, r.Panic)}
+		}
+	}
 	switch r.class() {
 	case "panic":
 		return &c05Bad{"C05:panic:" + panicClass(r.Panic) + ":" + via, fmt.Sprintf("%s panicked: %s", where, r.Panic)}
@@ -1572,6 +1815,17 @@ func (rn *c05Runner) runCase(kc kit.Case) kit.Verdict {
 	}
 	v.Steps = n
 	rn.rep.Count("family."+c.Family+"."+c.Src, 1)
+	if c.Family == "shapes" && rn.passNo == 0 {
+		// vacuity guard of the container-shape family: per class and source, cases run / calls that
+		// produced a value
+		tag := shapeClass(c.Fields[0].Ty) + "." + map[bool]string{true: "text", false: "typed"}[c.Src == "text"]
+		rn.rep.Count("shapes.cases."+tag, 1)
+		for _, r := range results {
+			if r.class() == "val" {
+				rn.rep.Count("shapes.val."+tag, 1)
+			}
+		}
+	}
 	for _, b := range bads {
 		if b.Key == "infra" {
 			return kit.Verdict{Case: kc.Index, Infra: true, Msg: b.Msg}
@@ -1668,6 +1922,17 @@ func TestVerifC05(t *testing.T) {
 		}
 	}
 	bad := map[int]bool{}
+	// The reporter writes at most 2000 failing verdicts per process in full (the rest is only counted).
+	// So that no CLASS of disagreement is lost when one class is very frequent, the first verdicts of
+	// every key are written at once and the repetitions of a key only after all cases have run.
+	const perKeyAtOnce = 10
+	keySeen := map[string]int{}
+	var repeated []kit.Verdict
+	defer func() {
+		for _, v := range repeated {
+			rep.Put(v)
+		}
+	}()
 	for pass := 0; pass < passes; pass++ {
 		rn.passNo = pass
 		order := rng.Perm(len(mine))
@@ -1682,6 +1947,12 @@ func TestVerifC05(t *testing.T) {
 			}
 			// every case is counted once; the second pass only adds new disagreements
 			if pass == 0 || !v.OK {
+				if !v.OK && !v.Infra {
+					if keySeen[v.Key]++; keySeen[v.Key] > perKeyAtOnce {
+						repeated = append(repeated, v)
+						continue
+					}
+				}
 				rep.Put(v)
 			}
 		}
